@@ -28,7 +28,7 @@ class TLCResult:
         return self.exports.get(tag, [])
 
 
-_EXPORT = re.compile(r'<<"([A-Z_0-9]+)", "((?:[^"\\]|\\.)*)">>')
+_EXPORT = re.compile(r'<<"([A-Z][A-Z_0-9]{2,})", "((?:[^"\\]|\\.)*)">>')
 
 
 def _unescape(s):
